@@ -194,7 +194,7 @@ func getInboxForwardingValues(o vocab.Type) (t []vocab.Type, iri []*url.URL) {
 			for iter := irt.Begin(); iter != irt.End(); iter = iter.Next() {
 				if tv := iter.GetType(); tv != nil {
 					t = append(t, tv)
-				} else {
+				} else if iter.IsIRI() {
 					iri = append(iri, iter.GetIRI())
 				}
 			}
@@ -206,7 +206,7 @@ func getInboxForwardingValues(o vocab.Type) (t []vocab.Type, iri []*url.URL) {
 			for iter := tag.Begin(); iter != tag.End(); iter = iter.Next() {
 				if tv := iter.GetType(); tv != nil {
 					t = append(t, tv)
-				} else {
+				} else if iter.IsIRI() {
 					iri = append(iri, iter.GetIRI())
 				}
 			}
@@ -218,7 +218,7 @@ func getInboxForwardingValues(o vocab.Type) (t []vocab.Type, iri []*url.URL) {
 			for iter := obj.Begin(); iter != obj.End(); iter = iter.Next() {
 				if tv := iter.GetType(); tv != nil {
 					t = append(t, tv)
-				} else {
+				} else if iter.IsIRI() {
 					iri = append(iri, iter.GetIRI())
 				}
 			}
@@ -230,7 +230,7 @@ func getInboxForwardingValues(o vocab.Type) (t []vocab.Type, iri []*url.URL) {
 			for iter := tar.Begin(); iter != tar.End(); iter = iter.Next() {
 				if tv := iter.GetType(); tv != nil {
 					t = append(t, tv)
-				} else {
+				} else if iter.IsIRI() {
 					iri = append(iri, iter.GetIRI())
 				}
 			}
